@@ -272,7 +272,7 @@ var (
 	allKinds   = []gen.Kind{gen.KChunk, gen.KDo, gen.KFor, gen.KWhile, gen.KRepeat, gen.KFunc, gen.KPcall, gen.KCoCreate, gen.KCoWrap}
 	handlers   = []gen.DKind{gen.HLog, gen.HRaise, gen.HRaiseT, gen.HYield}
 	mainKinds  = []gen.DKind{gen.HLog, gen.HRaise, gen.HRaiseT, gen.HYield, gen.VFalse}
-	valueKinds = []gen.DKind{gen.VFalse, gen.VNil, gen.VNoMeta, gen.VPlainMT, gen.VString, gen.VNumber, gen.VFunc, gen.VLate, gen.HSwap}
+	valueKinds = []gen.DKind{gen.VFalse, gen.VNil, gen.VNoMeta, gen.VPlainMT, gen.VString, gen.VNumber, gen.VFunc, gen.VLate, gen.HSwap, gen.HRemove}
 )
 
 func declRange(d, kmin, kmax int, dk []gen.DKind, pick func([]gen.DKind) bool) [][]gen.Decl {
